@@ -20,7 +20,7 @@ OP_SEM = RUN19_PRELUDE[_a:_b]
 PRELUDE = r'''
 #![allow(unused_imports, unused_variables, dead_code, unused_mut, unused_parens)]
 use vstd::prelude::*;
-use std::collections::HashMap;
+use std::collections::{HashMap, HashSet, BTreeMap, BTreeSet, VecDeque};
 
 verus! {
 global size_of usize == 8;
